@@ -24,11 +24,13 @@ import keyword
 import numpy as np
 from harness import common as C
 
-# source tie (harness/translate.py, dialect 'dyn'): the recursive writer, the HDF5 group methods, the spectrum dictionaries and the
-# loader, regenerated on every run into lean/TaurexModel/Gen/SrcC16.lean and proved equal to the functions of
+# source tie (harness/translate.py, dialect 'dyn'): the recursive writer, the HDF5 group methods, the spectrum dictionaries, the
+# loaders (generic, per component, chemistry, whole model, file level) and component `write` methods, regenerated on every run into lean/TaurexModel/Gen/SrcC16.lean and proved equal to the functions of
 # TaurexModel/Output.lean in lean/Props/C16Src.lean
 _U = 'taurex/util/util.py'
 _H = 'taurex/output/hdf5.py'
+_L = 'taurex/util/hdf5.py'
+_TP = 'taurex/data/profiles/temperature/'
 SRC_SPECS = [
     dict(module=_U, func='recursively_save_dict_contents_to_output', lean='recursively_save', dialect='dyn',
          callees={'store_thing': 3}),
@@ -49,6 +51,36 @@ SRC_SPECS = [
     dict(module='taurex/util/hdf5.py', func='get_klass_args', lean='get_klass_args', dialect='dyn'),
     dict(module='taurex/util/hdf5.py', func='load_generic_profile_from_hdf5', lean='load_generic_profile', dialect='dyn',
          unshared=['args_dict']),
+    # the per-component loaders and the component `write` methods (write -> load round trip of a component)
+    dict(module=_L, func='load_temperature_from_hdf5', lean='load_temperature', dialect='dyn'),
+    dict(module=_L, func='load_pressure_from_hdf5', lean='load_pressure', dialect='dyn'),
+    dict(module=_L, func='load_gas_from_hdf5', lean='load_gas', dialect='dyn'),
+    dict(module=_L, func='load_planet_from_hdf5', lean='load_planet', dialect='dyn'),
+    dict(module=_L, func='load_star_from_hdf5', lean='load_star', dialect='dyn'),
+    dict(module=_L, func='load_contrib_from_hdf5', lean='load_contrib', dialect='dyn'),
+    dict(module=_TP + 'tprofile.py', cls='TemperatureProfile', func='write', lean='tprofile_write',
+         callname='tprofile_write', dialect='dyn'),
+    dict(module=_TP + 'isothermal.py', cls='Isothermal', func='write', lean='isothermal_write',
+         callname='isothermal_write', dialect='dyn', calls={'super().write': 'tprofile_write'}),
+    dict(module=_TP + 'guillot.py', cls='Guillot2010', func='write', lean='guillot_write',
+         callname='guillot_write', dialect='dyn', calls={'super().write': 'tprofile_write'}),
+    dict(module=_TP + 'npoint.py', cls='NPoint', func='write', lean='npoint_write',
+         callname='npoint_write', dialect='dyn', calls={'super().write': 'tprofile_write'}),
+    dict(module='taurex/model/model.py', cls='ForwardModel', func='write', lean='forwardmodel_write',
+         callname='forwardmodel_write', dialect='dyn'),
+    dict(module='taurex/model/simplemodel.py', cls='SimpleForwardModel', func='write', lean='simplemodel_write',
+         callname='simplemodel_write', dialect='dyn', calls={'super().write': 'forwardmodel_write'}),
+    dict(module='taurex/model/transmission.py', cls='TransmissionModel', func='write', lean='transmission_write',
+         callname='transmission_write', dialect='dyn', calls={'super().write': 'simplemodel_write'}),
+    dict(module='taurex/data/profiles/chemistry/chemistry.py', cls='Chemistry', func='write', lean='chemistry_write',
+         callname='chemistry_write', dialect='dyn'),
+    dict(module='taurex/data/profiles/chemistry/taurexchemistry.py', cls='TaurexChemistry', func='write',
+         lean='taurexchemistry_write', callname='taurexchemistry_write', dialect='dyn',
+         calls={'super().write': 'chemistry_write'}),
+    dict(module=_L, func='load_chemistry_from_hdf5', lean='load_chemistry', dialect='dyn'),
+    dict(module=_L, func='load_model_from_hdf5', lean='load_model', dialect='dyn'),
+    dict(module=_L, func='taurex_hdf5_to_model', lean='hdf5_to_model', dialect='dyn'),
+    dict(module=_L, func='taurex_hdf5_to_observation', lean='hdf5_to_observation', dialect='dyn'),
 ]
 
 RULE = ('dictionaries: 1-7 entries per level, depth <= 3, values drawn from scalars (float/int/bool, numpy and python, '
